@@ -20,7 +20,32 @@ CHECKS = {
          "stores/deletes/flushes (immediate, delayed) over up to 6 keys with advances around the flush deadline; all keys probed after every command.", "as C01", "6/C08"),
  "C11": ("exploration", "independent response parser over generated histories (round-trip/validity oracle)",
          "every response emitted during generated histories (all opcodes, all outcomes) is re-parsed by an independent parser and checked against its request.", "the protocol status table and body layout are taken from the memcached binary protocol document", "6/C11"),
+ "C03": ("exploration", "schedule enumeration (harness-owned baton scheduler at the Cache trait boundary) + linearizability search against the reference model",
+         "small concurrent programs (2-3 clients, 1-2 commands) on one key from every initial state are executed under every interleaving of the store's trait-level steps (stateless DFS, exhaustive up to the leaf cap); each execution must be explained by some sequential order consistent with program and real-time order.",
+         "interleavings inside one MemoryStore method are out of the scheduler's reach (OS-scheduled stress only); DashMap shard locking trusted", "6/C03"),
+ "C04": ("exploration", "schedule enumeration + linearizability search (read-modify-write commands)",
+         "2-3 clients with one RMW or plain command each, every initial state, every interleaving at trait-call granularity; blocked clients (key locks) are detected through the kernel thread state so that lock-based implementations are schedulable.",
+         "as C03", "6/C04"),
+ "C09": ("exploration", "differential testing over read segmentations + independent framer",
+         "generated pipelines are decoded under every single cut, byte-at-a-time, boundary-aligned cuts, random cut sets and (thorough) all pairs of cuts; executed requests, responses, close point and store dump must equal the one-chunk run and every request must consume exactly 24+body bytes.",
+         "decoder level with a harness-owned buffer mirroring the connection's read loop; socket-level phase listed separately in the evidence when present", "6/C09"),
+ "C10": ("exploration", "boundary-grid enumeration + mutation fuzzing of byte streams, decode+execute+encode under catch_unwind with overflow checks",
+         "the full header boundary grid (exhaustive in the thorough tier) and generated/mutated streams are executed in-process; oracles: no panic, bounded decode loop, invalid headers never executed, bounded buffer capacity, parseable correlated responses.",
+         "in-process (socket part covered by the L3 checks); hangs inside one call are caught by a watchdog + subprocess confirmation", "6/C10"),
+ "C14": ("exploration", "model-based workloads under eviction with a stored-bytes invariant; strict and attributed generator pair around the known accounting defect",
+         "workloads under memory pressure; after every command the sum of Record::len over the inner store is compared with limit + last written record; accounting compared with content through the hook; known finding K5 tolerated only when the counter wrap was observed in the same history.",
+         "eviction victims are chosen by the code's own entropy-seeded RNG, so replays reproduce the oracle verdict but not necessarily the victim; oracles are victim-independent", "6/C14"),
+ "C15": ("exploration", "long model-based workloads with per-command accounting comparison (hook) and a no-loss oracle; strict and attributed generator pair",
+         "long workloads whose live set stays below 1/16 of the limit; strict generator (exact oracle: no loss, accounting delta = content delta, zero when empty) and attributed generator (every deviation must match the known defect's exact prediction).",
+         "K1-K5 of known_findings.json are tolerated only with their exact signature; the strict generator excludes them by construction", "6/C15"),
+ "C16": ("exploration", "schedule enumeration with a step-must-return oracle (progress), blocked-thread detection",
+         "2-3 clients issuing any commands incl. flush and eviction-triggering stores under every interleaving at trait-call granularity; a granted step must reach its next scheduling point; stalls are confirmed in a subprocess.",
+         "safety reading of liveness: no reachable stuck state within the explored schedules; lock-order problems that need a pre-emption inside a MemoryStore method are only reachable by the stress phase", "6/C16"),
+ "C19": ("exploration", "metamorphic testing: paired runs with toggled loud/quiet opcodes",
+         "the same resolved command history is run all-loud and with a generated subset switched to quiet opcodes on identical fresh stacks; untouched positions, per-position dumps and a walk through all expiry instants must be byte-identical; switched positions must follow the quiet rules.",
+         "CAS values are compared literally (deterministic CAS source)", "6/C19"),
 }
+
 NOT_YET = {}
 ALL = ["C%02d" % i for i in range(1, 21)]
 
